@@ -215,6 +215,7 @@ func ZZC09Broker() {
 	var msgs []*zz9Msg
 	sessAck := false  // CONNACK(0) seen for S at least once and the session not ended since
 	sessMaybe := false
+	transient := false
 	nextPid := packets.PacketID(10)
 	nextTag := byte(1)
 	var outS []packets.Packet // S's un-answered packets on the current connection, in order
@@ -263,6 +264,9 @@ func ZZC09Broker() {
 					}
 				}
 				sessAck = true
+				// a v3.1.1 session with Clean Session 1 ends with its connection (and the
+				// crash ends the connection): nothing is claimed about it after the restart
+				transient = !S.v5 && clean
 				outS = nil
 				seeS()
 			} else if clean || !sessAck {
@@ -475,7 +479,7 @@ func ZZC09Broker() {
 	P2.drain()
 
 	// S comes back with Clean Start 0
-	if sessAck && !sessMaybe {
+	if sessAck && !sessMaybe && !transient {
 		S2 := &zz9Cli{id: S.id, v5: S.v5}
 		ack := S2.connect(srv2, false, E)
 		zzrt.Assert(ack != nil && ack.Code == codes.Success, "subscriber-reconnects")
